@@ -161,7 +161,13 @@ func (g *c15Gen) action() bool {
 		res(ast.Method(a.expr(), "length"))
 		label = "length"
 	case k <= 14:
-		res(ast.Method(a.expr(), "contains", g.elem()))
+		if g.n(0, 7, "unsetneedle") == 0 {
+			// a variable that was never assigned: == is false against every element
+			res(ast.Method(a.expr(), "contains", ast.Id("neverset")))
+			g.labels["contains-unset-needle"] = true
+		} else {
+			res(ast.Method(a.expr(), "contains", g.elem()))
+		}
 		label = "contains"
 	case k <= 16:
 		res(ast.Method(a.expr(), "sort"))
